@@ -266,7 +266,8 @@ def make_o1(max_list, full_cross=True):
             w, broker, escaped, chosen = run_world(None, vals, list_len, coe, store_skips, observer, obs_target,
                                                    lazy_fault=lambda n, i: FAULTS[en.choice("fault_%s_%s" % (n, i), len(FAULTS))], driver=driver, rotate=rotate)
             case = lambda mv: {"faults": [[n, i, f] for (n, i), f in sorted(chosen.items(), key=repr)], "list_len": list_len,  # noqa
-                               "coe": coe, "store_skips": store_skips, "observer": observer, "obs_target": obs_target, "driver": driver, "rotate": rotate}
+                               "coe": coe, "store_skips": store_skips, "observer": observer, "obs_target": obs_target, "driver": driver, "rotate": rotate,
+                               "vals": dict((k_, mv.int(v_)) for k_, v_ in vals.items())}
             en.note_sample(case)
             bad = accounting(w, broker, escaped, store_skips)
             en.must_hold(not bad, "accounted", case, detail=bad)
@@ -309,6 +310,7 @@ def obligations(tier):
 def _native(case):
     faults = dict(((n, i), f) for n, i, f in case["faults"])
     vals = {"z": 7, "e0": 11, "e1": 13, "e2": 17}
+    vals.update(case.get("vals") or {})       # the input values of the counterexample (0, negative ... matter to truthiness slips)
     w, broker, escaped, _ = run_world(faults, vals, case["list_len"], case["coe"], case["store_skips"], case["observer"], case["obs_target"],
                                       driver=case.get("driver", "run"), rotate=case.get("rotate", 0))
     bad = accounting(w, broker, escaped, case["store_skips"])
